@@ -189,6 +189,13 @@ func H_reset() {
 	}
 	// the transaction subscription of the previous height does not survive
 	vAssert("C05.O3.subscription", !d.txSubscriptionOn || e.nSubscribe > 0)
+	if e.want("C16") {
+		vCover("C16.reset")
+		vAssert("C16.reset.subscription", !d.txSubscriptionOn || e.nSubscribe > 0)
+		if !e.maxCfg {
+			vAssert("C16.O4.nosubscribe", e.nSubscribe == 0 && !d.txSubscriptionOn)
+		}
+	}
 	// O5: admissible cached payloads of the entered height are taken into account
 	for _, c := range e.cached {
 		if c.height == d.BlockIndex && int(c.vidx) < n2 && !d.blockProcessed && (my2 < 0 || d.CommitPayloads[my2] == nil && d.PreCommitPayloads[my2] == nil) {
